@@ -29,6 +29,9 @@ const nCaptions = 81
 // footnote family: parent display × footnote display × footnote-display × 3 shapes
 const nFoot = 3 * 4 * n20 * n20
 
+// running family: parent display × running element display × 5 shapes
+const nRunning = nRunShapes * n20 * n20
+
 func famSizes(tier string) (chain3, sib, oof, pseudo, chain4, random int) {
 	chain3 = 2 * n20 * n20 * n20 // with and without text
 	sib = 3 * n20 * n20 * n20    // separators: none, white space, text
@@ -83,6 +86,12 @@ func genCase(r *rand.Rand, i int, tier string) Input {
 		return genSpans(i)
 	}
 	i -= nSpans()
+	if i < nRunning {
+		shape := i / (n20 * n20)
+		i %= n20 * n20
+		return genRunning(disp20[i/n20], disp20[i%n20], shape)
+	}
+	i -= nRunning
 	if i < chain4 {
 		withText := i >= chain4/2
 		i %= chain4 / 2
@@ -94,14 +103,15 @@ func genCase(r *rand.Rand, i int, tier string) Input {
 func init() {
 	fw.Register(&fw.Prop{
 		ID: "C09",
-		Rule: "inputs: generated HTML documents whose elements carry one of 20 display values (block, inline, inline-block, list-item, table, inline-table, the 8 table-internal values, flex, inline-flex, grid, inline-grid, flow-root, none) × float (left, right, footnote with footnote-display block / inline / compact) × position × ::before/::after with display and float × list-style-position × caption-side, plus (random trees only) multi-keyword display spellings and inline list-item, HTML tables whose cells carry colspan / rowspan and whose <col> / <colgroup> carry span with values of the whole attribute-value family (small valid numbers mostly; also 0, negative, signed, zero-padded, white-space padded, empty / non-numeric, digits followed by other characters, the maxima 1000 / 65534 and beyond, more than 18 digits, non-ASCII white space and digits), replaced elements with children (svg, object, img). " +
-			"Enumerated exhaustively: every (parent, child, grandchild) display triple with and without surrounding text, every (parent, child, child) sibling triple with no / white-space / text separator, every (parent, child) pair with the child floated or absolutely positioned, every (element, pseudo-element) display pair, every caption-side combination of two captions of a table, every (parent display, footnote element display, footnote-display) combination of a footnote element in three shapes (between text, first with block and display:none children, nested in another footnote), every value of the 35-value span attribute list as colspan or rowspan of a cell (3 positions in a 3-group table, alone or with the other attribute = 2, on HTML table elements and on div elements with table display values), every (colspan, rowspan) pair of these values on one cell, every value as span of a <col> (first / last of its group) and of a <colgroup> without <col>, followed by further columns; thorough adds every 4-chain over the 12 table-related values. The rest are random trees of at most 40 elements (7 % of their elements are footnote elements, with any display incl. none, any position, in any context incl. tables, flex/grid containers, hidden and replaced ancestors, other footnotes, body). " +
+		Rule: "inputs: generated HTML documents whose elements carry one of 20 display values (block, inline, inline-block, list-item, table, inline-table, the 8 table-internal values, flex, inline-flex, grid, inline-grid, flow-root, none) × float (left, right, footnote with footnote-display block / inline / compact) × position (relative, absolute, fixed, running(name) of css-gcpm-3 §1.2) × ::before/::after with display and float × list-style-position × caption-side, plus (random trees only) multi-keyword display spellings and inline list-item, HTML tables whose cells carry colspan / rowspan and whose <col> / <colgroup> carry span with values of the whole attribute-value family (small valid numbers mostly; also 0, negative, signed, zero-padded, white-space padded, empty / non-numeric, digits followed by other characters, the maxima 1000 / 65534 and beyond, more than 18 digits, non-ASCII white space and digits), replaced elements with children (svg, object, img). " +
+			"Enumerated exhaustively: every (parent, child, grandchild) display triple with and without surrounding text, every (parent, child, child) sibling triple with no / white-space / text separator, every (parent, child) pair with the child floated or absolutely positioned, every (element, pseudo-element) display pair, every caption-side combination of two captions of a table, every (parent display, footnote element display, footnote-display) combination of a footnote element in three shapes (between text, first with block and display:none children, nested in another footnote), every value of the 35-value span attribute list as colspan or rowspan of a cell (3 positions in a 3-group table, alone or with the other attribute = 2, on HTML table elements and on div elements with table display values), every (colspan, rowspan) pair of these values on one cell, every value as span of a <col> (first / last of its group) and of a <colgroup> without <col>, followed by further columns, every (parent display, running element display) pair of a running element (position: running()) in five shapes (first before trailing text, between text, holding another running element, with mixed content next to an ordinary block, two running elements before trailing text); thorough adds every 4-chain over the 12 table-related values. The rest are random trees of at most 40 elements (7 % of their elements are footnote elements, with any display incl. none, any position, in any context incl. tables, flex/grid containers, hidden and replaced ancestors, other footnotes, body; 6 % are running elements, with any display incl. none, never floated). " +
+			"Running elements: a box whose own computed position is running() is a placeholder -- nothing is laid out where it stands and webrender's anonymous-box passes leave its content unformed until content: element() places it in a margin box. Where it stands it is judged as one out-of-flow box (it may be the child of a block container among block-level boxes, of a line / inline box, of a flex / grid container without being an item, or a table part of the proper kind), its parent's clauses hold with it (in particular a line box never has a placeholder as sibling), each running element has exactly one placeholder (running-placeholder-count, running-of-non-running); its content is walked with every clause in an area formed as layout does (Deepcopy, position static, CreateAnonymousBox over a block container holding it), running elements met inside give further areas; running_* counters tell how many placeholders were met in which context, running_only_blocks_beside_inline_content how many block containers had running elements as only block-level children beside inline content. " +
 			"Footnotes: the footnote boxes are reached through the Footnote link of the ::footnote-call boxes met in the tree and must be listed in the footnotes output; they are put in a footnote area formed as layout does (CreateAnonymousBox over a block holding deep copies of them) and that area is walked with every clause; footnote_* counters tell how many were walked, how many display:none / hidden footnote elements were verified box-less. " +
 			"Span attributes (HTML 4.9.11 / 4.9.3 / 4.9.4, rules for parsing non-negative integers; model in spans.go): on every value a cell spans 1..1000 columns and 1..(rows left in its group) rows, takes the first free slot and shares none, a <col> / childless <colgroup> stands for 1..1000 columns and the columns after it are numbered accordingly; the exact Colspan / Rowspan / number of column boxes must equal the HTML value (colspan, span: error or 0 -> 1, > 1000 -> 1000; rowspan: error -> 1, 0 -> to the end of the group, > 65534 -> 65534) on every value except the four classes trailing_chars, huge, unicode_space and negative rowspan, where a difference is reported only (span_html_parse_deviation, report_only_disagreements); span_<attribute>_<class> counters tell how many attributes of each class were judged, span_values_exact_verified / span_values_range_only how many exactly / by range. " +
 			"A case is non-trivial when at least one element other than html/body is rendered, every clause held, and the observed tree has more boxes than the document has rendered elements (text, line, anonymous or wrapper boxes were generated and walked); distinct = distinct input.",
 		N: func(tier string) int {
 			a, b, c, d, e, f := famSizes(tier)
-			return a + b + c + d + e + f + nFoot + nSpans()
+			return a + b + c + d + e + f + nFoot + nSpans() + nRunning
 		},
 		Gen: func(r *rand.Rand, i int, tier string) any { return genCase(r, i, tier) },
 		Check: func(raw json.RawMessage) fw.Result {
@@ -139,6 +149,13 @@ func init() {
 				"span_rowspan_white_space": 100, "span_rowspan_negative": 150,
 				"span_span_valid": 500, "span_span_zero": 25, "span_span_negative": 20, "span_span_non_numeric": 40, "span_span_over_max": 12,
 				"col_span_checked": 800, "colgroup_span_checked": 400,
+				// running elements (position: running()): placeholders by context, areas walked
+				// (fam_running: the 17 enumerated cases of the open finding F-C09-running-inline-split-by-block are known hits, not counted)
+				"fam_running": nRunning - 40, "running_placeholders": 3000, "running_areas": 3000, "running_elements_checked": 3000,
+				"running_placeholder_in_block_fc": 800, "running_placeholder_in_inline_fc": 1000, "running_placeholder_flex_grid_item": 200,
+				"running_placeholder_in_table_part": 700, "running_only_blocks_beside_inline_content": 200, "running_nested": 250,
+				"running_in_footnote": 150, "running_display_block": 900, "running_display_inline": 300, "running_display_table": 100,
+				"running_display_table-cell": 100, "running_display_flex": 80,
 			}
 		},
 		Assumptions: []string{
@@ -146,7 +163,9 @@ func init() {
 			"the cascade and computed values other than display/float/position are not judged here (C03/C04); every element is styled through one id selector",
 			"out-of-flow boxes are recognised from the box's own computed float/position",
 			"a table-internal child of a flex container is accepted either blockified (css-flexbox-1 §4) or, as webrender does, kept inside an anonymous table that is the flex item",
-			"run-in, ruby, display:contents and running() are not generated",
+			"run-in, ruby and display:contents are not generated",
+			"running elements (css-gcpm-3 §1.2): position: running() is generated on div / span elements with any display value, not on HTML table parts, replaced elements, html / body or pseudo-elements, and never together with float (how the two combine is not defined); the display of a running element is the specified one (CSS 2.1 §9.7 names absolute and fixed only); BuildFormattingStructure leaves the content of a running box unformed, so the check forms it the way boxes.ContentToBoxes / layout's margin boxes do (bo.Deepcopy, position set to static on a copy of the style, bo.CreateAnonymousBox over an anonymous block of the root box holding it) and judges every clause there; the kind of a placeholder is not judged where it stands (a running table is a bare table box there, its wrapper is supplied in the area), the columns after a running column group are renumbered from wherever webrender resumes, the rows of a running row group / cells of a running row take no part in the slot check of the table they stand in; the anonymous block webrender wraps around an inline-level flex / grid item carries the item's style incl. position: the running box met again inside it is the same placeholder (running_item_wrapper_unwrapped)",
+			"open finding F-C09-running-inline-split-by-block (matched by its own signature, stays in the generated domain: the 17 cases of the enumerated running family with an inline running element holding a block, and about 45 of the 12 000 random trees -- 19 of 20 random running inline elements are given inline content only): BlockInInline splits a running inline box around an in-flow block-level box inside it",
 			"span attributes: the oracle reads the generator's attribute values (the parsed DOM must carry the same strings, else the case is inconclusive); colspan / rowspan are generated on elements whose computed display is table-cell only, span on <col> / <colgroup> only (an anonymous cell or a column group of another element reading such an attribute is not judged); a <colgroup> has either a span attribute or <col> children, never both; on attribute values with characters after the digits, more than 18 digits, non-ASCII white space, and on a negative rowspan, webrender reads the attribute with a strict integer parser where HTML parses a prefix / clamps / rejects: the box tree stays well formed, the difference is reported, not judged; a ::before/::after with display table-column on a <colgroup span> makes the expected number of columns undefined (range only)",
 			"open finding F-C09-colgroup-span-lost-to-generated-content (matched by its own signature, stays in the generated domain: about 15 of the 12 000 random trees): <colgroup span=N> with ::before/::after content stands for 1 or 2 columns instead of N",
 			"footnotes (css-gcpm-3 §2): float:footnote is generated on elements other than the root, not on ::before/::after (webrender leaves such a pseudo-element in the flow; undefined in GCPM); BuildFormattingStructure returns footnote boxes before anonymous-box fix-up, so the check forms the footnote area itself the way layoutContext.updateFootnoteArea does (bo.CreateAnonymousBox over an anonymous block of the root box whose children are bo.Deepcopy of the footnote boxes reached through ::footnote-call links, nested footnotes in a further area); footnote-display:compact may give a block or an inline box (UA's choice per GCPM); a footnote element keeps the marker of a list-item display (blockified per CSS 2.1 §9.7); ::footnote-marker is not judged on replaced elements and <img>",
